@@ -366,7 +366,8 @@ def gen_area(rng, tier_thorough, idx, force=None):
                              "chunks": gen_chunks(rng, h, w) if rng.random() < 0.25 else None, "mutate": mut})
             elif j < 0.8:
                 hist.append({"op": "get_lonlats", "slice": rng.choice([None, None, gen_pair(rng, h, w)]),
-                             "chunks": gen_chunks(rng, h, w) if rng.random() < 0.25 else None, "dtype": None, "cache": False, "mutate": mut})
+                             "chunks": gen_chunks(rng, h, w) if rng.random() < 0.25 else None, "dtype": None,
+                             "cache": rng.random() < 0.25, "mutate": mut})
             elif j < 0.9:
                 hist.append({"op": "get_lonlat", "row": rng.randint(-h, h - 1), "col": rng.randint(-w, w - 1)})
             else:
@@ -918,6 +919,8 @@ class Eval:
             ops_txt, obs_txt = [], []
             good = True
             cached_before = False
+            cache_set = False          # self.lons is set (tracked as the model does)
+            aliased_overwrite = False  # the caller overwrote arrays that are the cache or a view of it
             for k, (op, st) in enumerate(zip(hist, steps)):
                 acc = op["op"]
                 what = "step %d of history %s: %s" % (k + 1, [self.op_str(q) for q in hist[:k + 1]], self.op_str(op))
@@ -927,6 +930,8 @@ class Eval:
                          sample=self.smp(4, {"history": [self.op_str(q) for q in hist[:k + 1]], "shape": [h, w], "crs": self.name,
                                  "impl": st.get("value") or (st.get("ll") or [{}])[0].get("shape") or st}))
                 key = self.ll_key("history." + acc, acc == "colrow2lonlat") if self.cls == "derived_geographic" else "C01.lonlat.history." + acc
+                if aliased_overwrite and acc in ("get_lonlats", "get_lonlat") and self.cls != "derived_geographic":
+                    key = "C01.lonlat.history.cache_aliasing"
                 if acc in ("get_proj_vectors", "projection_coords", "get_proj_coords"):
                     ckey = "C01.coords.history." + acc
                     if "error" in st:
@@ -1000,7 +1005,13 @@ class Eval:
                             good = False
                 if not good:
                     break
-                if exact:
+                if acc == "get_lonlats":
+                    if not cache_set and op.get("cache") and op.get("chunks") is None and op.get("slice") is None:
+                        cache_set = True
+                    if cache_set and op.get("mutate") and st.get("mutated"):
+                        aliased_overwrite = True
+                        ctx.count("history_aliased_overwrite")
+                if exact and not aliased_overwrite:
                     if acc == "get_lonlats":
                         sl = op.get("slice")
                         sl_txt = "None" if sl is None else "(Some (%s, %s))" % (zlist(rows), zlist(cols))
@@ -1021,7 +1032,7 @@ class Eval:
                             tabP[k_] = (xs[cols[0]], ys[rows[0]], float(pl_), float(pa_))
                     obs_txt.append("[" + "; ".join("[" + "; ".join("(%s, %s)" % (fhex(lo[i, j]), fhex(la[i, j])) for j in range(lo.shape[1])) + "]"
                                                    for i in range(lo.shape[0])) + "]")
-            if exact and good and ops_txt:
+            if exact and good and ops_txt and not aliased_overwrite:
                 def tab(t):
                     return "[" + "; ".join("((%s, %s), (%s, %s))" % tuple(fhex(v) for v in e) for e in t.values()) + "]"
                 self.coq["history"].append("(%s, %s, %s, [%s], ([%s] : list (list (list (float * float)))))" % (
